@@ -23,7 +23,7 @@ FLOORS = {'quick': {'insert-accepted': 400, 'probe-lib': 4000, 'probe-defn': 400
                     'hook:knot_insertion': 300},
           'thorough': {'insert-accepted': 5000, 'probe-lib': 50000}}
 MANDATORY_TAGS = ['pdim1', 'pdim2', 'pdim3', 'twins', 'rational', 'on-knot', 'in-span', 'multi-dir', 'via:method', 'via:operations',
-                  'r>=2', 'unnormalized', 'dir:u', 'dir:v', 'dir:w', 'same-value-again', 'unclamped', 'on-domain-end']
+                  'r>=2', 'unnormalized', 'dir:u', 'dir:v', 'dir:w', 'same-value-again', 'unclamped', 'on-domain-end', 'short-knot-range']
 TECHNIQUE = ("runtime monitoring: shadow-model oracle (exact reference of the original definition) evaluated after every step of "
              "a seeded insertion history, plus an all-call post-condition hook on helpers.knot_insertion/_kv")
 LEVEL_TEXT = ("Every insertion the workload performs is followed by an exact comparison of the live object and of its new "
@@ -127,6 +127,10 @@ def gen(rng, tier, shard, nshards):
             kw = dict(pdim=rng.choice([1, 1, 2, 2, 3]), normalize=rng.random() < 0.7)
         pd = kw.pop('pdim')
         kw.setdefault('maxextra', {1: 6, 2: 4, 3: 2}[pd])
+        if 'lohi' not in kw and rng.random() < 0.1:
+            # an un-normalised knot vector on a very short (or long) range: tolerances of the library must be relative to that range
+            a_ = rng.choice([0.0, 5.0, -2.0 ** -21])
+            kw.update(normalize=False, lohi=(a_, a_ + rng.choice([2.0 ** -20, 2.0 ** -17, 2.0 ** 12])))
         unclamped = 'kvcls' not in kw and rng.random() < 0.25
         sd = G.rand_shape(rng, pd, clamped_only=not unclamped, **(dict(kw, kvcls=rng.choice(['unclamped', 'unclamped_rep'])) if unclamped else kw))
         yield {'kind': 'history', 'sd': sd, 'seed': rng.randrange(1 << 30), 'steps': rng.randint(1, 8 if pd < 3 else 4)}
@@ -223,6 +227,8 @@ def check(case, ctx):
     probes = so.probe_params(rng, S0, nrand=6, maxn=30 if pdim < 3 else 14)
     if any(kv[0] != kv[p_] or kv[-1] != kv[-p_ - 1] for kv, p_ in zip(sd['kvs'], sd['degrees'])):
         ctx.tag('unclamped')
+    if any(abs(kv[-1] - kv[0]) < 1e-4 for kv in sd['kvs']):
+        ctx.tag('short-knot-range')
     ctx.tag('pdim%d' % pdim, 'rational' if sd['rational'] else 'nonrational',
             'normalized' if sd['normalize_kv'] else 'unnormalized')
     accepted = 0
